@@ -324,6 +324,15 @@ theorem n_devices_converge (τ ρ : List Nat) (hτ : joinRun 0 τ = some tl.leng
   cases hw : w.run ρ with
   | mk s ds => rw [hw] at hs' hds; simp only at hs' hds; rw [hs', hds]
 
+include hne hs hat hnd in
+/-- C05 over n devices: in the log everybody ends with, every event of every device occurs
+exactly as often as it was made (once), and nothing else occurs. -/
+theorem n_devices_every_event_exactly_once (τ ρ : List Nat) (hτ : joinRun 0 τ = some tl.length)
+    (hρ : ∀ i, i < tl.length → i ∈ ρ) (hρr : ∀ i ∈ ρ, i < tl.length) :
+    ∃ M, ((start pre x tl).run (τ ++ ρ)).s = pre ++ x :: M ∧ ∀ r : Rec, M.count r = tl.flatten.count r := by
+  obtain ⟨M, hperm, _, hrun⟩ := n_devices_converge pre x tl hne hs hat hnd τ ρ hτ hρ hρr
+  exact ⟨M, by rw [hrun], fun r => hperm.count_eq r⟩
+
 end
 
 /-! ### the premises are satisfiable: three devices, interleaved times -/
